@@ -249,3 +249,42 @@ Example C20_bytes_ex :
   md5_file Z (list Z) (fun m b => m ++ b) 2 [1; 2; 3; 4; 5] [] = Some [1; 2; 3; 4; 5] /\
   md5_file Z (list Z) (fun m b => m ++ b) 0 [1; 2; 3] [] = Some [].   (* blocksize 0 reads nothing *)
 Proof. vm_compute. auto. Qed.
+
+(* -- stage 5: "while the checksum is available" read off the server ------------------------------- *)
+
+(* Availability is a fact about the server, not about what the call chose to ask: let k be the number
+   of checksum GETs made before the LAST data GET (0 when there was none) -- the k-th checksum answer is
+   what the server gives to the first checksum request after the file took its final content.  If the
+   call returns normally and that answer publishes c, the file has MD5 c.  Every world (answers may
+   vary), every digest function; and in the model that answer is the last one consulted. *)
+Theorem C20_sound_final : forall (md5 : Z -> Z) (w : world),
+  SoundFinal md5 w (download md5 w) /\
+  (returned (r_out (download md5 w)) = true -> n_sum (download md5 w) = S (k_final (download md5 w))).
+Proof. intros md5 w. exact (conj (sound_final md5 w) (k_final_last md5 w)). Qed.
+Print Assumptions C20_sound_final.
+
+Theorem C20_model_meets_spec5 : forall (md5 : Z -> Z) (w : world), Spec5 md5 w (download md5 w).
+Proof. exact model_meets_spec5. Qed.
+Print Assumptions C20_model_meets_spec5.
+
+Theorem C20_checker5_iff : forall (md5 : Z -> Z) (w : world) (o : result),
+  spec5_b md5 w o = true <-> Spec5 md5 w o.
+Proof. exact spec5_b_iff. Qed.
+Print Assumptions C20_checker5_iff.
+
+Definition late_sum_world : world :=   (* corrupt file on disk; checksum file missing at the pre-check, published from then on *)
+  {| w_data := [Body 1]; w_sums := [CNone]; w_rest := Sum 0; w_prior := Some 3 |}.
+Example C20_sound_final_ex :
+  (* the model: pre-check blind, the corrupted transfer is refuted by the second answer, the retry gets 404 *)
+  download (fun b => b) late_sum_world =
+    {| r_out := RaiseHttp; r_file := Some 1; r_trace := [EvSum; EvData; EvSum; EvData] |} /\
+  (* an implementation that remembers the first "missing" and returns without asking again: every clause of
+     Spec is met (the only answer SERVED says "unavailable"), SoundFinal is not (the server publishes MD5 0
+     from the moment the body was written, the file holds body 1) *)
+  spec_b (fun b => b) late_sum_world {| r_out := RetDone; r_file := Some 1; r_trace := [EvSum; EvData] |} = true /\
+  k_final {| r_out := RetDone; r_file := Some 1; r_trace := [EvSum; EvData] |} = 1%nat /\
+  sound_final_b (fun b => b) late_sum_world {| r_out := RetDone; r_file := Some 1; r_trace := [EvSum; EvData] |} = false /\
+  spec5_b (fun b => b) late_sum_world (download (fun b => b) late_sum_world) = true /\
+  (* no data GET: the first answer counts *)
+  k_final {| r_out := RetSkip; r_file := Some 0; r_trace := [EvSum] |} = 0%nat.
+Proof. vm_compute. repeat split; auto. Qed.
